@@ -278,7 +278,7 @@ class Scenario(apiworld.ApiWorld):
 
     def fp_extra(self):
         now = self.loop.time()
-        return (worlds.net_state(self.net), tuple(sorted(self.used.items())), self.mute_gs,
+        return (worlds.net_state(self.net), tuple(sorted(self.used.items())), self.mute_gs, round(now - self.t_init, 6), self.console.silent,
                 repr(sorted((k, sorted(v.items())) for k, v in self.console.state["ac"].items())),
                 repr(sorted((k, sorted(v.items())) for k, v in self.console.state["zone"].items())),
                 tuple(round(t - now, 6) for t in self.gs_sent[-2:]), len(self.notified))
@@ -311,4 +311,5 @@ def run(tier, seed, part=None):
             res = explorer.explore(SPEC, params, depth, dev, time_cap=cap, seed=seed, label=f"at{gen}/{extra}")
             chk.add_explorer(f"at{gen}/" + ("poll" if extra.get("poll") else ("silent-console" if extra.get("max_silent") else "reconnect")), SPEC, params, res,
                              {"depth": depth, "deviations": dev, **extra})
+    chk.add_audit(SPEC, {"gen": 4, "macro": True, "max_tick": 2, "max_loss": 1, "max_edit": 1, "max_adv": 1, "poll": True}, 4, 0, limit=3000 if tier == "thorough" else 400)
     return chk.finish()
